@@ -8,6 +8,11 @@
 //! overwriting; Unsubscribe = stop and forget the session registered for the topic) exactly when
 //! the schedule says the manager runs.
 //!
+//! A dropping thread parks three times: `before_drop` (next step = the `fetch_sub`),
+//! `drop_after_decrement` (next step = the decision on the value `fetch_sub` returned; no shared
+//! access in the code as it is) and, if it decided to leave, `drop_before_unsubscribe` (next step =
+//! `send_message(Unsubscribe)`) — the model's `PDrop` / `PDec` / `PSend`.
+//!
 //! Payload: `<flags> <label>*` — flags: one char per thread, `k` = the thread calls `stream()` and
 //! keeps the handle, `d` = it calls `stream()` and then drops the handle; label: thread index or
 //! `M` (manager handles the next message).  A label whose step is not enabled is skipped; after
